@@ -54,6 +54,8 @@ pub const MIRRORS: &[(&[&str], &str, &str, &str)] = &[
     (&["C07"], "generator/rasn/utils.rs", "format_oid", "Lexer.Values"),
     (&["C07"], "validator/linking/mod.rs", "link_struct_like", "Link.Values.linkGiven / Link.Values.assemble"),
     (&["C07"], "validator/linking/mod.rs", "link_array_like", "Link.Values.linkElems"),
+    (&["C07"], "generator/rasn/utils.rs", "value_to_tokens", "Gen.Values.render (the composite arms: nested / struct / list / choice values)"),
+    (&["C07"], "generator/rasn/utils.rs", "type_to_tokens", "Gen.Values.tyName (which member types have a name a struct value can be rendered under)"),
     // linker
     (&["C09"], "validator/linking/mod.rs", "link_components_of", "Link.ComponentsOf"),
     (&["C09"], "validator/linking/mod.rs", "resolve_parameters", "Link.Params.instantiate"),
